@@ -60,11 +60,14 @@ scalar Plain
 type RN {{ sc: Sc scs: [Sc!] }}
 interface Node {{ id: ID! sc: Sc }}
 type A implements Node {{ id: ID! sc: Sc extra: [Sc] }}
+type B implements Node {{ id: ID! sc: Sc other: Int }}
 type R {{
 {r}
   nested: RN
   plain: Plain
   node: Node
+  nodes: [Node!]!
+  nodeReq: Node!
 }}
 {ins}
 input Outer {{ inner: I0 many: [I5!] sc: Sc! plain: Plain }}
@@ -112,6 +115,7 @@ def result_ops():
     ops.append(("RNest", "query RNest { r { r0 nested { sc scs } plain } }\n", {"pos:nested_result"}))
     ops.append(("RFrag", "query RFrag { r { ...F nested { ...FN } } }\nfragment F on R { r0 r5 }\nfragment FN on RN { sc scs }\n", {"pos:fragment_mixin"}))
     ops.append(("RUnp", "query RUnp { r { node { id ...FA } } }\nfragment FA on A { sc extra }\n", {"pos:fragment_unpacked"}))
+    ops.append(("RAbs", "query RAbs { r { node { id sc ... on A { extra } ... on B { other } } nodes { sc ... on A { id } ... on B { id } } nodeReq { sc ... on A { id } ... on B { id } } } }\n", {"pos:abstract_members"}))
     return ops
 
 
@@ -120,6 +124,8 @@ def arg_ops():
     ops += [(f"In{i}", f"query In{i}($x: I{i}) {{ in{i}(x: $x) }}\n", [("x", f"I{i}")], {f"shape:{s}", "pos:input_field"}) for i, s in enumerate(corpus.SHAPES)]
     ops.append(("OuterOp", "query OuterOp($x: Outer) { outer(x: $x) }\n", [("x", "Outer")], {"pos:nested_input"}))
     ops.append(("Two", "query Two($a: Sc, $b: [Sc!], $p: Plain) { two(a: $a, b: $b, p: $p) }\n", [("a", "Sc"), ("b", "[Sc!]"), ("p", "Plain")], {"pos:multi_variable"}))
+    ops.append(("ReqA", "query ReqA($a: Sc!) { two(a: $a) }\nquery ReqB($a: Sc!, $c: Sc!) { two(a: $a) t2: two(a: $c) }\nquery ReqC($z: Sc!) { two(a: $z) }\n", [("a", "Sc!")], {"pos:several_operations"},
+                [("ReqA", [("a", "Sc!")]), ("ReqB", [("a", "Sc!"), ("c", "Sc!")]), ("ReqC", [("z", "Sc!")])]))
     return ops
 
 
@@ -245,9 +251,17 @@ def evaluate(case):
                 out["outcomes"].add("result_parsed")
             # unconfigured scalar passes through unchanged is covered by `plain` in RNest
             return finish(out)
-        # argument positions
-        vars_ = op[2]
+        # argument positions (one or several operations of the same package)
         from graphql import parse_type, type_from_ast
+        for sub_name, vars_ in (op[4] if len(op) > 4 else [(op[0], op[2])]):
+            mname = str_to_snake_case(sub_name)
+            arg_position(schema, mod, mname, vars_, cfg, CALLS, py_of, raw_of, out, P)
+    return finish(out)
+
+
+def arg_position(schema, mod, mname, vars_, cfg, CALLS, py_of, raw_of, out, P):
+    from graphql import parse_type, type_from_ast
+    if True:
         menus = {}
         for vn, vt in vars_:
             t = type_from_ast(schema, parse_type(vt))
@@ -294,7 +308,6 @@ def evaluate(case):
             if any(f == "parse" for f, a in calls):
                 P.append(("parse_called_on_argument", f"{calls}", ctx))
             out["outcomes"].add("argument_serialised")
-    return finish(out)
 
 
 def finish(out):
@@ -340,7 +353,7 @@ def build_cases(tier):
                 for op in (result_ops() if full else result_ops()[:3] + result_ops()[-3:]):
                     cases.append(dict(cfg=cfg, style=style, kind="result", op=op))
             if cfg in ("type_only", "serialize", "both"):
-                for op in (arg_ops() if full else arg_ops()[:3] + arg_ops()[-2:]):
+                for op in (arg_ops() if full else arg_ops()[:3] + arg_ops()[-3:]):
                     cases.append(dict(cfg=cfg, style=style, kind="arg", op=op))
     return cases
 
@@ -352,7 +365,7 @@ def main(tier):
     results = pool.run_cases(evaluate, cases, timeout=300, progress=200)
     evals, distinct, outcomes = 0, 0, set()
     for case, (st, r) in zip(cases, results):
-        feats = {f"cfg:{case['cfg']}", f"import:{case['style']}", f"kind:{case['kind']}"} | set(case["op"][-1])
+        feats = {f"cfg:{case['cfg']}", f"import:{case['style']}", f"kind:{case['kind']}"} | set(case["op"][3] if len(case["op"]) > 3 else case["op"][2])
         desc = {"scalar_config": case["cfg"], "import_style": case["style"], "query": case["op"][1]}
         if rep.triage:
             rep.seen(feats)
